@@ -210,6 +210,19 @@ def correlation_resolution_table(ctx) -> dict[str, list[str]]:
     return out
 
 
+def _only_below(ctx, q: str, root: str, depth: int = 0) -> bool:
+    """q is a private method of the class of ``root`` and every call of it lies in ``root`` or in such a helper of it."""
+    prog = ctx.prog
+    f, rf = prog.funcs.get(q), prog.funcs.get(root)
+    if f is None or rf is None or f.cls is None or rf.cls is None or f.cls.qual != rf.cls.qual or not f.name.startswith("_") or depth > 3:
+        return False
+    callers = {s_.caller for s_ in ctx.cg.callers(q)} if hasattr(ctx.cg, "callers") else set()
+    # references by name anywhere (also uncalled ones) must lie in the same closure
+    refs = {g.qual for g in prog.funcs.values() if g.qual != q and any(isinstance(n_, ast.Attribute) and n_.attr == f.name for n_ in walk_no_nested(g.node))}
+    users = callers | refs
+    return bool(users) and all(u == root or _only_below(ctx, u, root, depth + 1) for u in users)
+
+
 def r1_ordering(ctx) -> None:
     r, prog = ctx.r, ctx.prog
     r.rule("C09.R1", "between reference resolution and conversion the rule list is replaced by a topological order of the reference relation (referenced rules first, transitively); comparison sorts on the non-transitive __lt__ and rank keys blind to chains are reported")
@@ -368,7 +381,8 @@ def r5_every_reference_holder(ctx) -> None:
                 except _R9 as ex:
                     outs9[nm9] = "condition error" if "SigmaCorrelationConditionError" in str(ex) else f"raises {ex}"
             want9 = {"same": "accepted", "same, other order": "accepted", "rule not in condition": "condition error", "condition names an undefined rule": "condition error", "disjoint": "condition error", "no list": "accepted"}
-            if outs9 == want9 and "self.condition.get_referenced_rules()" in unparse(rr.node):
+            taken9 = correlation_resolution_table(ctx)["the reference list is taken from the rules list or the extended condition"]
+            if outs9 == want9 and not taken9:
                 r.ok("C09.R5", rr.qual, "field condition: its references are names checked against `rules` in both directions (error on mismatch) or become the resolved references", loc)
             else:
                 r.violation("C09.R5", rr.qual, "field condition", f"the names in an extended condition are no longer checked against the rules list in both directions: { {k_: v_ for k_, v_ in outs9.items() if want9.get(k_) != v_} }", loc)
@@ -577,6 +591,8 @@ def r4_output_switch(ctx) -> None:
                     r.ok("C09.R4", q, "rule.disable_output_by_reference() exactly under `not self.generate` (interpreted: generate x own output switch x reference source)", loc)
                 elif q == "sigma.correlations.SigmaCorrelationRule.resolve_rule_references":
                     r.violation("C09.R4", q, short(x, 80), f"disable_output_by_reference() not exactly under `not self.generate`: {tbl[0]}", loc)
+                elif _only_below(ctx, q, "sigma.correlations.SigmaCorrelationRule.resolve_rule_references") and not tbl:
+                    r.ok("C09.R4", q, "rule.disable_output_by_reference() in a private helper that only reference resolution calls; exactly under `not self.generate` (interpreted through the helper)", loc)
                 else:
                     r.violation("C09.R4", q, short(x, 80), f"disable_output_by_reference() called outside reference resolution or not under `not self.generate` ({gs})", loc)
             if isinstance(x, ast.Call) and call_name(x).endswith(".disable_output"):
